@@ -82,7 +82,7 @@ pub fn make_client_config(
 pub mod verif {
     use super::*;
 
-    pub use super::certificate::verif_generate_with;
+    pub use super::certificate::{verif_generate_with, verif_generate_with_extensions};
 
     /// `verify_server_cert` with `intermediates` extra copies of the certificate as the
     /// intermediate chain; on success the peer ID that the QUIC transport extracts.
